@@ -22,7 +22,7 @@ ASSUMPTIONS = ["orientation of a row = Rz(psi).Rx(theta).Rz(phi) (DESIGN section
                "flip_handedness is judged only when the dimension table covers every tomogram of the list",
                "z-mirror conjugate of R is M.R.M with M = diag(1,1,-1)"]
 
-CLASSES = ["odd_index", "random", "half_ties", "gimbal", "wide_angles", "negative_positions", "n1", "multi_tomo_flip", "single_dim_flip",
+CLASSES = ["one_row_n4", "odd_index", "random", "half_ties", "gimbal", "wide_angles", "negative_positions", "n1", "multi_tomo_flip", "single_dim_flip",
            "compose_shift", "compose_rot", "flip_twice", "update_only"]
 OTHER = [c for c in gens.COLS if c not in ("x", "y", "z", "shift_x", "shift_y", "shift_z", "phi", "theta", "psi")]
 M = np.diag([1.0, 1.0, -1.0])
@@ -30,10 +30,10 @@ M = np.diag([1.0, 1.0, -1.0])
 
 def plan(tier):
     if tier == "quick":
-        return dict(n_cases=360, shards=2, classes=CLASSES, timeout_s=600,
+        return dict(n_cases=420, shards=2, classes=CLASSES, timeout_s=600,
                     min_evals={"update_coordinates": 150, "scale_coordinates": 80, "shift_positions": 150, "apply_rotation": 120,
                                "flip_handedness": 120, "history_model": 600, "compose": 80})
-    return dict(n_cases=6000, shards=15, classes=CLASSES, timeout_s=3000,
+    return dict(n_cases=7000, shards=15, classes=CLASSES, timeout_s=3000,
                 min_evals={"update_coordinates": 2500, "scale_coordinates": 1200, "shift_positions": 2500, "apply_rotation": 2000,
                            "flip_handedness": 2000, "history_model": 10000, "compose": 1300})
 
@@ -220,6 +220,8 @@ def gen(ctx, i, cls):
         n = 1
     ori = {"gimbal": "gimbal", "wide_angles": "wide"}.get(cls, "mixed")
     ntomo = int(rng.integers(2, 5)) if cls == "multi_tomo_flip" else int(rng.integers(1, 4))
+    if cls == "one_row_n4":
+        ntomo = 1
     df = gens.motl_table(rng, n, tomos=ntomo, ori=ori, signed=(cls == "negative_positions" or rng.random() < 0.3))
     if cls == "half_ties" or rng.random() < 0.25:
         base = np.round(df[["x", "y", "z"]].to_numpy())
@@ -233,6 +235,9 @@ def gen(ctx, i, cls):
     extra_t = [float(t) for t in rng.choice(np.arange(100, 120), 2, replace=False)]
     dim_rows = [[t] + [float(v) for v in rng.integers(50, 600, 3)] for t in tomos + extra_t]
     rng.shuffle(dim_rows)
+    if cls == "one_row_n4" or (len(tomos) == 1 and rng.random() < 0.3):
+        # a per-tomogram (tomo_id x y z) table with exactly ONE row, non-cubic
+        dim_rows = [[tomos[0]] + [float(v) for v in rng.choice(np.arange(50, 600), 3, replace=False)]]
     ops = []
     nops = int(rng.integers(1, 7))
 
@@ -260,7 +265,7 @@ def gen(ctx, i, cls):
         fmt = str(rng.choice(["list3", "array3", "array_n4", "frame_n4", "file_n4", "file_13", "frame13"]))
         if cls == "single_dim_flip":
             fmt = str(rng.choice(["list3", "array3", "file_13", "frame13"]))
-        if cls == "multi_tomo_flip":
+        if cls in ("multi_tomo_flip", "one_row_n4"):
             fmt = str(rng.choice(["array_n4", "frame_n4", "file_n4"]))
         return {"op": "flip", "fmt": fmt, "single": [float(v) for v in rng.integers(50, 600, 3)]}
 
@@ -275,7 +280,7 @@ def gen(ctx, i, cls):
         ops = [f, dict(f)]
     elif cls == "update_only":
         ops = [rand_op("update")]
-    elif cls in ("multi_tomo_flip", "single_dim_flip"):
+    elif cls in ("multi_tomo_flip", "single_dim_flip", "one_row_n4"):
         ops = [rand_op() for _ in range(nops - 1)]
         ops.insert(int(rng.integers(0, len(ops) + 1)), rand_op("flip"))
     else:
